@@ -361,4 +361,25 @@ example :
           "\"cpu\": \"10%\", \"name\": \"t1:t2\"}]").toList, ["000-allocations-0000000003".toList], 4⟩) := by
   decide +kernel
 
+/-! ### `sync_servers`, `sync_traits` -/
+
+/-- `/globals/servers` afterwards holds the JSON list of the LDAP server ids, in LDAP order,
+    whatever it held before (`ensure_exists` has no content check: the node is always written). -/
+theorem C19_sync_servers (node : Option Str) (ids : List Str) :
+    (syncServers node ids).2 = some (renderList (ids.map jsonStr)) ∧ (syncServers node ids).1 ≠ [] := by
+  cases node <;> simp [syncServers, ensureExists, payloadOf]
+
+/-- `/traits` afterwards holds the cell's `traits` value — except that a `None` value leaves an
+    existing node as it is (`ensure_exists`: "if data not provided, we keep original data"). -/
+theorem C19_sync_traits (node : Option Str) (data : Data) :
+    (syncTraits node data).2 =
+      match node, data with
+      | some c, .none => some c
+      | _, _ => some (payloadOf data) := by
+  cases node <;> cases data <;> rfl
+
+example : syncServers (some "old".toList) ["s1".toList, "s\"2".toList] =
+    ([.set [] "[\"s1\", \"s\\\"2\"]".toList], some "[\"s1\", \"s\\\"2\"]".toList) ∧
+    syncTraits (some "kept".toList) .none = ([], some "kept".toList) := by decide
+
 end TmVerif.CellSync
